@@ -8,6 +8,7 @@ import CnbVerif.Props.C04
 #print axioms CnbVerif.C04.queries_between_inserts_irrelevant
 #print axioms CnbVerif.C04.default_keeps_empty_string
 #print axioms CnbVerif.C04.append_to_empty_has_no_delimiter
+#print axioms CnbVerif.C04.apply_to_empty_get
 #print axioms CnbVerif.C04.all_applies_before_scope
 #print axioms CnbVerif.C04.delimiter_alone_has_no_effect
 #print axioms CnbVerif.C04.scope_override_replaces
